@@ -468,9 +468,9 @@ func cqPerturb(rng *rand.Rand, a *cqRaw) (*cqRaw, string) {
 }
 
 func cqGen(c *core.Ctx) func(rng *rand.Rand, i int) cqCase {
-	fullEvery := 25
+	fullEvery := 60
 	if c.Thorough() {
-		fullEvery = 10
+		fullEvery = 20
 	}
 	return func(rng *rand.Rand, i int) cqCase {
 		cs := cqCase{K: []int{0, 2, 4, 8, 16, 40}[rng.Intn(6)], Full: i%fullEvery == fullEvery-1, Salt: rng.Int63()}
@@ -896,14 +896,18 @@ func cqCheck(c *core.Ctx, cases []cqCase) []core.Outcome {
 				}
 				dom = c16Uniq(dom, func(r rune) bool { return r >= 0 && r <= c16Max })
 			}
-			cqOracle(o.Key, "A", a, da, dom, ans, surrogate, cs.A.Raw == nil, fail)
-			cqOracle(o.Key, "B", b, db, dom, ans, surrogate, cs.B.Raw == nil, fail)
+			memA, memB := make([]bool, len(dom)), make([]bool, len(dom))
+			for k, r := range dom {
+				memA[k], memB[k] = a.CharIn(r), b.CharIn(r)
+			}
+			cqOracle(o.Key, "A", a, da, dom, memA, ans, surrogate, cs.A.Raw == nil, fail)
+			cqOracle(o.Key, "B", b, db, dom, memB, ans, surrogate, cs.B.Raw == nil, fail)
 			eq := ans["AB.eq"] == "1"
 			if eq != (ans["BA.eq"] == "1") {
 				fail("impl-violation", "Equals", "Equals is not symmetric on "+o.Key, ans["AB.eq"], ans["BA.eq"])
 			}
-			for _, r := range dom {
-				ia, ib := a.CharIn(r), b.CharIn(r)
+			for k, r := range dom {
+				ia, ib := memA[k], memB[k]
 				if ia && ib && (!mo || !om) {
 					fail("impl-violation", "MayOverlap", fmt.Sprintf("MayOverlap(A,B)=%v, MayOverlap(B,A)=%v but U+%04X is a member of both A = %s and B = %s", mo, om, r, cs.A.String(), cs.B.String()), "true", "false")
 					break
@@ -996,7 +1000,7 @@ func cqCheck(c *core.Ctx, cases []cqCase) []core.Outcome {
 }
 
 // the unary answers against membership
-func cqOracle(key, tag string, set *syntax.CharSet, d *c16Dump, dom []rune, ans cqAnswers, surrogate, parsed bool, fail func(kind, fn, summary, exp, got string)) {
+func cqOracle(key, tag string, set *syntax.CharSet, d *c16Dump, dom []rune, mem []bool, ans cqAnswers, surrogate, parsed bool, fail func(kind, fn, summary, exp, got string)) {
 	neg := d.Negate
 	members := func(extra []rune) map[rune]bool {
 		m := map[rune]bool{}
@@ -1009,8 +1013,8 @@ func cqOracle(key, tag string, set *syntax.CharSet, d *c16Dump, dom []rune, ans 
 	}
 	// count members / non-members lazily: only when a flag asks for it
 	count := func(want bool, limit int) (n int, first rune) {
-		for _, r := range dom {
-			if set.CharIn(r) == want {
+		for k, r := range dom {
+			if mem[k] == want {
 				if n == 0 {
 					first = r
 				}
@@ -1055,15 +1059,15 @@ func cqOracle(key, tag string, set *syntax.CharSet, d *c16Dump, dom []rune, ans 
 		for _, r := range chars {
 			in[r] = true
 		}
-		mem := members(chars)
+		listed := members(chars)
 		for _, r := range chars {
-			if mem[r] == negated {
-				fail("impl-violation", fn, fmt.Sprintf("%s of %s (%s) lists U+%04X (negated=%v) but its membership is %v", fn, tag, key, r, negated, mem[r]), fmt.Sprint(!negated), fmt.Sprint(mem[r]))
+			if listed[r] == negated {
+				fail("impl-violation", fn, fmt.Sprintf("%s of %s (%s) lists U+%04X (negated=%v) but its membership is %v", fn, tag, key, r, negated, listed[r]), fmt.Sprint(!negated), fmt.Sprint(listed[r]))
 				return
 			}
 		}
-		for _, r := range dom {
-			if !in[r] && set.CharIn(r) != negated {
+		for k, r := range dom {
+			if mem[k] != negated && !in[r] {
 				fail("impl-violation", fn, fmt.Sprintf("%s of %s (%s) (negated=%v) does not list U+%04X whose membership is %v", fn, tag, key, negated, r, !negated), "listed", "not listed")
 				return
 			}
@@ -1080,14 +1084,14 @@ func cqOracle(key, tag string, set *syntax.CharSet, d *c16Dump, dom []rune, ans 
 	}
 	for _, n := range []int{1, 2, len(d.Ranges)} {
 		if rs := set.GetIfNRanges(n); n > 0 && rs != nil {
-			for _, r := range dom {
+			for k, r := range dom {
 				in := false
 				for _, g := range rs {
 					if g.First <= r && r <= g.Last {
 						in = true
 					}
 				}
-				if in != (set.CharIn(r) != neg) {
+				if in != (mem[k] != neg) {
 					fail("impl-violation", "GetIfNRanges", fmt.Sprintf("GetIfNRanges(%d) of %s (%s, negate=%v): U+%04X in the ranges = %v, membership %v", n, tag, key, neg, r, in, set.CharIn(r)), fmt.Sprint(set.CharIn(r) != neg), fmt.Sprint(in))
 					break
 				}
@@ -1100,14 +1104,14 @@ func cqOracle(key, tag string, set *syntax.CharSet, d *c16Dump, dom []rune, ans 
 		// (several NEGATED entries: the class is a union of complements, the answer reads as the complement of a union;
 		// no caller in the engine; recorded in design.d/C16.md)
 		if len(cats) == 1 || !cats[0].Negate {
-			for _, r := range dom {
+			for k, r := range dom {
 				in := false
 				for _, ct := range cats {
 					if m, ok := c16CatMem(ct.Cat, r); ok && m {
 						in = true
 					}
 				}
-				if (in != negated) != set.CharIn(r) {
+				if (in != negated) != mem[k] {
 					fail("impl-violation", "GetIfOnlyUnicodeCategories", fmt.Sprintf("GetIfOnlyUnicodeCategories of %s (%s) = (%v, negate=%v) but U+%04X has membership %v", tag, key, cats, negated, r, set.CharIn(r)), fmt.Sprint(set.CharIn(r)), fmt.Sprint(in != negated))
 					break
 				}
@@ -1132,8 +1136,8 @@ func cqOracle(key, tag string, set *syntax.CharSet, d *c16Dump, dom []rune, ans 
 		if !rt.Equals(set) || !cp.Equals(set) {
 			fail("impl-violation", "Hash", fmt.Sprintf("NewCharSetRuntime(Hash()) or Copy() of %s (%s) is not Equal to the set", tag, key), "Equals", "differs")
 		}
-		for _, r := range dom {
-			if rt.CharIn(r) != set.CharIn(r) || cp.CharIn(r) != set.CharIn(r) {
+		for k, r := range dom {
+			if rt.CharIn(r) != mem[k] || cp.CharIn(r) != mem[k] {
 				fail("impl-violation", "Hash", fmt.Sprintf("NewCharSetRuntime(Hash()) / Copy() of %s (%s) differ from the set on U+%04X", tag, key, r), fmt.Sprint(set.CharIn(r)), fmt.Sprint(rt.CharIn(r), cp.CharIn(r)))
 				break
 			}
@@ -1147,10 +1151,10 @@ type cqFactCase struct {
 	Fact string `json:"fact"`
 }
 
-var cqFacts = []string{"space-not-digit", "space-not-word", "ecmaspace-not-digit-or-word", "ecmaword-not-space", "whitespaceChars-are-the-spaces", "ascii-letters"}
+var cqFacts = []string{"space-not-digit", "space-not-word", "ecmaspace-not-digit", "ecmaspace-not-word", "ecmaword-not-space", "ecmadigit-not-space", "whitespaceChars-are-the-spaces", "ascii-letters"}
 
-func cqFactCheck(c *core.Ctx, cases []cqFactCase) []core.Outcome {
-	outs := make([]core.Outcome, len(cases))
+// one pass over all code points: the first rune (or -1) at which each fact fails
+var cqFactBad = sync.OnceValue(func() map[string]rune {
 	inRanges := func(rs [][2]rune, r rune) bool {
 		for _, g := range rs {
 			if g[0] <= r && r <= g[1] {
@@ -1159,38 +1163,44 @@ func cqFactCheck(c *core.Ctx, cases []cqFactCase) []core.Outcome {
 		}
 		return false
 	}
-	es, ew := syntax.ECMASpaceClass().VerifDump().Ranges, syntax.ECMAWordClass().VerifDump().Ranges
+	es, ew, ed := syntax.ECMASpaceClass().VerifDump().Ranges, syntax.ECMAWordClass().VerifDump().Ranges, syntax.ECMADigitClass().VerifDump().Ranges
 	_, ws, _, _ := syntax.SpaceClass().IsUnicodeCategoryOfSmallCharCount()
+	inWs := map[rune]bool{}
+	for _, w := range ws {
+		inWs[w] = true
+	}
+	bad := map[string]rune{}
+	for _, f := range cqFacts {
+		bad[f] = -1
+	}
+	note := func(f string, ok bool, r rune) {
+		if !ok && bad[f] < 0 {
+			bad[f] = r
+		}
+	}
+	for r := rune(0); r <= c16Max; r++ {
+		sp, nd, wd := unicode.IsSpace(r), unicode.Is(unicode.Nd, r), isWordCharStd(r)
+		ies := inRanges(es, r)
+		note("space-not-digit", !(sp && nd), r)
+		note("space-not-word", !(sp && wd), r)
+		note("ecmaspace-not-digit", !(ies && nd), r)
+		note("ecmaspace-not-word", !(ies && wd), r)
+		note("ecmaword-not-space", !(sp && inRanges(ew, r)), r)
+		note("ecmadigit-not-space", !(sp && inRanges(ed, r)), r)
+		note("whitespaceChars-are-the-spaces", inWs[r] == sp, r)
+		note("ascii-letters", r >= 128 || unicode.IsLetter(r) == (r >= 'A' && r <= 'Z' || r >= 'a' && r <= 'z'), r)
+	}
+	return bad
+})
+
+func cqFactCheck(c *core.Ctx, cases []cqFactCase) []core.Outcome {
+	outs := make([]core.Outcome, len(cases))
 	for i, cs := range cases {
 		o := &outs[i]
 		o.Key, o.Nontrivial = cs.Fact, true
-		bad := rune(-1)
-		for r := rune(0); r <= c16Max && bad < 0; r++ {
-			sp, nd, wd := unicode.IsSpace(r), unicode.Is(unicode.Nd, r), isWordCharStd(r)
-			var ok bool
-			switch cs.Fact {
-			case "space-not-digit":
-				ok = !(sp && nd)
-			case "space-not-word":
-				ok = !(sp && wd)
-			case "ecmaspace-not-digit-or-word":
-				ok = !(inRanges(es, r) && (nd || wd))
-			case "ecmaword-not-space":
-				ok = !(inRanges(ew, r) && sp)
-			case "whitespaceChars-are-the-spaces":
-				in := false
-				for _, w := range ws {
-					if w == r {
-						in = true
-					}
-				}
-				ok = in == sp
-			case "ascii-letters":
-				ok = r >= 128 || unicode.IsLetter(r) == (r >= 'A' && r <= 'Z' || r >= 'a' && r <= 'z')
-			}
-			if !ok {
-				bad = r
-			}
+		bad, known := cqFactBad()[cs.Fact]
+		if !known {
+			bad = 0
 		}
 		if bad >= 0 {
 			o.Fail = &core.Failure{Kind: "impl-violation", Key: "Kq:oracle-fact:" + cs.Fact,
@@ -1204,7 +1214,7 @@ func cqFactCheck(c *core.Ctx, cases []cqFactCase) []core.Outcome {
 func c16QueryLeg(c *core.Ctx, quick, thorough int) {
 	core.RunLeg(c, core.Leg[cqFactCase]{
 		Name: "Kq-facts", Kind: "oracle(unicode tables)", Exhaustive: true,
-		Rule: "the six facts about package unicode that the query functions assume and the Lean theorems take as hypotheses on the category oracle: no white-space rune is a decimal digit / a word character; no rune of the ECMAScript space table is a digit or a word character; no rune of the ECMAScript word table is white space; whitespaceChars is exactly the set of white-space runes; unicode.IsLetter below U+0080 is A-Z, a-z — each over all 1 114 112 code points",
+		Rule: "the eight facts about package unicode that the query functions assume and the Lean theorems take as hypotheses on the category oracle (OracleFacts, the white-space list, ASCII letters): no white-space rune is a decimal digit / a word character; no rune of the ECMAScript space table is a digit / a word character; no rune of the ECMAScript word / digit table is white space; whitespaceChars is exactly the set of white-space runes; unicode.IsLetter below U+0080 is A-Z, a-z — each over all 1 114 112 code points",
 		Corpus: func() []cqFactCase {
 			var cs []cqFactCase
 			for _, f := range cqFacts {
@@ -1251,7 +1261,7 @@ func c16QueryLeg(c *core.Ctx, quick, thorough int) {
 	}
 	core.RunLeg(c, core.Leg[cqCase]{
 		Name: "Kq", Kind: "correspondence+oracle",
-		Rule: "pairs of classes: leg K's random class expressions (20 %), the shapes canBeMadeAtomic meets (30 %: \\s \\w \\d and their negations under default / ECMAScript / RE2, single letters, [^x], case-folded letters, small sets, touching ranges, a-z minus a subtraction, \\p{..}, the dot, POSIX names), a class and a structural neighbour built with NewCharSetRuntime (30 %: same, negate flipped, negate flipped and subtraction changed, one range endpoint moved, a category entry flipped or added, subtraction dropped or added, anything flipped, the complement ranges), mixed incl. raw structures (20 %; 1 in 12 raw range lists not canonical: correspondence only). Every query function (Equals, MayOverlap both ways, IsSingleton, IsSingletonInverse, SingletonChar, IsMergeable, IsNegated, HasSubtraction, IsEmpty, IsAnything, GetSetChars for 1/3/5/128 and a drawn size, GetIfNRanges, GetIfOnlyUnicodeCategories, IsUnicodeCategoryOfSmallCharCount, Hash, NewCharSetRuntime∘Hash, Copy; equals-ignoreNegate, knownDistinctSets, mayOverlapByEnumeration, containsAsciiIgnoreCaseCharacter when /repo has the hooks) on the real CharSets = the Lean model on the dumped structures (category oracle = member intervals from package unicode). Oracle against CharIn on: U+0000-024F, endpoints ±1 of both classes, 130 special runes, 400 random; every 25th (thorough 10th) pair all 1 114 112 code points. Non-trivial = both classes have a range or a category; distinct by the pair",
+		Rule: "pairs of classes: leg K's random class expressions (20 %), the shapes canBeMadeAtomic meets (30 %: \\s \\w \\d and their negations under default / ECMAScript / RE2, single letters, [^x], case-folded letters, small sets, touching ranges, a-z minus a subtraction, \\p{..}, the dot, POSIX names), a class and a structural neighbour built with NewCharSetRuntime (30 %: same, negate flipped, negate flipped and subtraction changed, one range endpoint moved, a category entry flipped or added, subtraction dropped or added, anything flipped, the complement ranges), mixed incl. raw structures (20 %; 1 in 12 raw range lists not canonical: correspondence only). Every query function (Equals, MayOverlap both ways, IsSingleton, IsSingletonInverse, SingletonChar, IsMergeable, IsNegated, HasSubtraction, IsEmpty, IsAnything, GetSetChars for 1/3/5/128 and a drawn size, GetIfNRanges, GetIfOnlyUnicodeCategories, IsUnicodeCategoryOfSmallCharCount, Hash, NewCharSetRuntime∘Hash, Copy; equals-ignoreNegate, knownDistinctSets, mayOverlapByEnumeration, containsAsciiIgnoreCaseCharacter when /repo has the hooks) on the real CharSets = the Lean model on the dumped structures (category oracle = member intervals from package unicode). Oracle against CharIn on: U+0000-024F, endpoints ±1 of both classes, 130 special runes, 400 random; every 60th (thorough 20th) pair all 1 114 112 code points. Non-trivial = both classes have a range or a category; distinct by the pair",
 		Corpus: corpus, N: c.N(quick, thorough), Gen: cqGen(c), Check: cqCheck, Batch: 200,
 	})
 }
